@@ -2,10 +2,10 @@
 from ..core import Ob
 T = ['matrix', 'vector', 'memwrapper', 'numeric', 'algebra', 'tensor', 'list', 'interpolate']
 META = dict(
-    functions=['MatrixInversion', 'SolveLSE', 'MatrixDeterminant', 'OrdinaryLeastSquares', 'MatrixLUInversion', 'SVDlapack', 'conv2matrix', 'EVectEval', 'SVD', 'MatrixPseudoinversion'],
-    bounds='MatrixInversion n<=2 (3 in thorough), SolveLSE n<=2 with a re-used solution vector, determinant n<=4 vs the Leibniz sum, least squares (3x1, 3x2, 4x2); LAPACK wrappers: memory safety for square n<=3 and rectangular 3x2 / 2x3 with contract stubs; entries symbolic in [-10,10], |det| >= 1e-2',
-    outside='LAPACK numerics, conditioning up to 1e6, determinant multiplicativity (a theorem), Penrose conditions of the SVD-based pseudo-inverse, sizes beyond the bound; SolveLSE: entries with magnitude in (0,1e-3) (absolute 1e-4 pivot tests)',
-    stubs=['dgetrf_/dgetri_/dgesdd_/dgeev_: contract stubs writing arbitrary values to the documented extents'],
+    functions=['MatrixMoorePenrosePseudoinverse', 'MatrixInversion', 'SolveLSE', 'MatrixDeterminant', 'OrdinaryLeastSquares', 'MatrixLUInversion', 'SVDlapack', 'conv2matrix', 'EVectEval', 'SVD', 'MatrixPseudoinversion'],
+    bounds='MatrixInversion n<=2 (3 in thorough), SolveLSE n<=2 with a re-used solution vector, determinant n<=4 vs the Leibniz sum, least squares (3x1, 3x2, 4x2); Moore-Penrose pseudo-inverse 2x1, 3x1, 3x2 (fresh and re-used result matrix) with the inner SVD-based inverse replaced by its contract; SVD-based pseudo-inverse n<=2 under the SVD contract; LAPACK wrappers: memory safety for square n<=3 and rectangular 3x2 / 2x3 with contract stubs; entries symbolic in [-10,10], |det| >= 1e-2',
+    outside='LAPACK numerics, conditioning up to 1e6, determinant multiplicativity (a theorem), Penrose conditions beyond A*pinv(A)=I under the SVD contract (the eigen-based SVD itself is LAPACK: known finding C12_svd_eigen_nonsymmetric), sizes beyond the bound; SolveLSE: entries with magnitude in (0,1e-3) (absolute 1e-4 pivot tests)',
+    stubs=['dgetrf_/dgetri_/dgesdd_/dgeev_: contract stubs writing arbitrary values to the documented extents', 'SVD(): contract (orthonormal factors, positive singular values, input = their product) in pinv_composition', 'MatrixPseudoinversion(): contract (two-sided inverse of a non-singular argument) in moore_penrose'],
     assumptions=['known finding C12_no_pivoting: Gauss-Jordan pivots nonzero (MatrixInversion performs no row exchange)'],
 )
 
@@ -27,6 +27,17 @@ def obligations(tier):
         for pf in (0, 1):
             obs.append(Ob(id=f'ols/n{n}p{p}/{"reused_output" if pf else "fresh_output"}', harness='C12/solvers.c', tus=T, defs={'HP_WHICH': 3, 'HP_N': n, 'HP_P': p, 'HP_PREFILL': pf}, engine='real', unwind=10, timeout=to, clause='least squares: normal equations',
                           stubs=R, real={'nomissing': True}))
+    for n in ((1, 2) if not th else (1, 2, 3)):
+        obs.append(Ob(id=f'pinv_composition/n{n}', harness='C12/pinv.c', tus=T, defs={'HP_WHICH': 0, 'HP_N': n}, engine='real', unwind=10, timeout=to, clause='SVD-based pseudo-inverse = inverse whenever SVD() returns a valid decomposition',
+                      remove=('SVD',), stubs=R, real={'nomissing': True}))
+    for (r, c) in ([(2, 1), (3, 1), (3, 2)] if not th else [(2, 1), (3, 1), (3, 2), (4, 2), (2, 2)]):
+        for pf in (0, 1):
+            obs.append(Ob(id=f'moore_penrose/{r}x{c}/{"reused_output" if pf else "fresh_output"}', harness='C12/mp.c', tus=T, defs={'HP_R': r, 'HP_C': c, 'HP_PREFILL': pf}, engine='real', unwind=10, timeout=to,
+                          clause='Penrose conditions of MatrixMoorePenrosePseudoinverse', remove=('MatrixPseudoinversion',), stubs=R, real={'nomissing': True}))
+    # the finding: the real eigen-based SVD() is not a valid decomposition of a non-symmetric matrix (two unrelated LAPACK eigen-decompositions);
+    # LAPACK is not encodable, the recorded witness is re-run natively on every run
+    obs.append(Ob(id='pinv_nonsymmetric/n2', harness='C12/pinv.c', tus=T, defs={'HP_WHICH': 1, 'HP_N': 2}, engine='native', timeout=120, clause='A * pinv(A) = I for a non-singular square matrix',
+                  kf='C12_svd_eigen_nonsymmetric', kf_witness=True, native_inputs=('d 1', 'd 2', 'd 3', 'd 5')))
     for (r, c) in [(1, 1), (2, 2), (3, 3), (3, 2), (2, 3)]:
         obs.append(Ob(id=f'svdlapack/{r}x{c}', harness='C12/lapack.c', tus=T, defs={'HP_WHICH': 0, 'HP_R': r, 'HP_C': c}, engine='bits', unwind=40, timeout=300, clause='LAPACK wrappers: memory safety and output shapes',
                       stubs=('sym_lapack_contract.c', 'sym_bits_env.c'), kf='C12_svdlapack_rect' if r != c else '', object_bits=10))
